@@ -132,15 +132,42 @@ def embed(row, kind, rng):
         if renamed is None or renamed == text:
             return None
         return embed(dict(row, text=renamed), inner, rng) if inner else (renamed, [lambda l: l], 1)
+    if kind.startswith("body-in-") and lang == "py":
+        # the statements of a documented function example (its body), moved into a loop / an if inside another function
+        try:
+            tree = ast.parse(text)
+        except (SyntaxError, ValueError):
+            return None
+        defs = [n for n in tree.body if isinstance(n, (ast.FunctionDef, ast.AsyncFunctionDef))]
+        others = [n for n in tree.body if not isinstance(n, (ast.FunctionDef, ast.AsyncFunctionDef, ast.Import, ast.ImportFrom))]
+        if len(defs) != 1 or others or isinstance(defs[0], ast.AsyncFunctionDef) or '"""' in text or "'''" in text:
+            return None
+        body = [n for n in defs[0].body if not (isinstance(n, ast.Expr) and isinstance(getattr(n, "value", None), ast.Constant))]
+        if not body or any(isinstance(n, (ast.Yield, ast.YieldFrom, ast.Nonlocal, ast.Global)) for n in ast.walk(defs[0])):
+            return None
+        first, last = body[0].lineno, body[-1].end_lineno
+        src = text.split("\n")
+        block = src[first - 1:last]
+        ind = len(block[0]) - len(block[0].lstrip())
+        if any(ln.strip() and len(ln) - len(ln.lstrip()) < ind for ln in block):
+            return None
+        inner = {"body-in-for": "    for outer_embedded in OUTER_EMBEDDED:", "body-in-while": "    while FLAG_EMBEDDED:", "body-in-if": "    if FLAG_EMBEDDED:"}.get(kind)
+        if inner is None:
+            return None
+        params = ast.unparse(defs[0].args)
+        heads = ["def wrapper_embedded(%s):" % params, inner]
+        out = "\n".join(heads) + "\n" + "".join((" " * 8 + ln[ind:] if ln.strip() else "") + "\n" for ln in block)
+        return out, [lambda l, a=first, b=last: (l - a + 3) if a <= l <= b else -1], 1
     if kind.startswith("ts-in-") and lang in ("ts", "js"):
         if re.search(r"^\s*(import|export)\b", text, re.M):
             return None
         heads = {"ts-in-function": ["function wrapperEmbedded(flagEmbedded) {"], "ts-in-arrow": ["const wrapperEmbedded = (flagEmbedded) => {"],
                  "ts-in-fexpr": ["const wrapperEmbedded = function (flagEmbedded) {"], "ts-in-if": ["if (FLAG_EMBEDDED) {"],
-                 "ts-in-method": ["class OuterEmbedded {", "  run(flagEmbedded) {"], "ts-in-objmethod": ["const holderEmbedded = {", "  run(flagEmbedded) {"]}.get(kind)
+                 "ts-in-method": ["class OuterEmbedded {", "  run(flagEmbedded) {"], "ts-in-objmethod": ["const holderEmbedded = {", "  run(flagEmbedded) {"],
+                 "ts-in-for": ["for (const outerEmbedded of OUTER_EMBEDDED) {"], "ts-in-while": ["while (FLAG_EMBEDDED) {"]}.get(kind)
         if heads is None:
             return None
-        tails = {"ts-in-function": ["}"], "ts-in-arrow": ["};"], "ts-in-fexpr": ["};"], "ts-in-if": ["}"], "ts-in-method": ["  }", "}"], "ts-in-objmethod": ["  },", "};"]}[kind]
+        tails = {"ts-in-function": ["}"], "ts-in-arrow": ["};"], "ts-in-fexpr": ["};"], "ts-in-if": ["}"], "ts-in-method": ["  }", "}"], "ts-in-objmethod": ["  },", "};"], "ts-in-for": ["}"], "ts-in-while": ["}"]}[kind]
         if "`" in text:
             return None  # re-indenting would change multi-line template contents
         ind = "  " * len(heads)
@@ -158,10 +185,13 @@ def embed(row, kind, rng):
         return head + text, [lambda l, o=off: l + o], 1
     if kind == "before-filler":
         return (text if text.endswith("\n") else text + "\n") + "\n\n" + filler(lang, rng.choice([1, 5]), "b"), [lambda l: l], 1
-    if kind in ("in-function", "in-if") and lang == "py":
+    if kind in ("in-function", "in-if", "in-for", "in-while") and lang == "py":
         if re.search(r"^(return|yield)\b", text, re.M) or "__name__" in text or "from __future__" in text or re.search(r"^\s*(import \*|from \S+ import \*)", text, re.M):
             return None
-        head = "def wrapper_embedded(flag_embedded):\n" if kind == "in-function" else "if FLAG_EMBEDDED:\n"
+        if kind in ("in-for", "in-while") and re.search(r"^(break|continue)\b", text, re.M):
+            return None
+        head = {"in-function": "def wrapper_embedded(flag_embedded):\n", "in-if": "if FLAG_EMBEDDED:\n", "in-for": "for outer_embedded in OUTER_EMBEDDED:\n",
+                "in-while": "while FLAG_EMBEDDED:\n"}[kind]
         body = "".join(("    " + ln if ln.strip() else ln) + "\n" for ln in text.split("\n")[:-1])
         if '"""' in text or "'''" in text:
             return None  # re-indenting would change multi-line string contents
@@ -267,8 +297,8 @@ def run(ctx):
             if cmd in docs.HEADER_BOUND:
                 kinds += ["before-filler"]
             else:
-                kinds += ["after-filler", "before-filler", "in-function", "in-if", "repeat2", "repeat3", "in-function-class", "in-function-if", "in-function-try", "in-class-class"]
-                ts_scopes = ["ts-in-function", "ts-in-arrow", "ts-in-fexpr", "ts-in-if", "ts-in-method", "ts-in-objmethod"]
+                kinds += ["body-in-for", "body-in-while", "body-in-if", "after-filler", "before-filler", "in-function", "in-if", "in-for", "in-while", "repeat2", "repeat3", "in-function-class", "in-function-if", "in-function-try", "in-class-class"]
+                ts_scopes = ["ts-in-function", "ts-in-arrow", "ts-in-fexpr", "ts-in-if", "ts-in-method", "ts-in-objmethod", "ts-in-for", "ts-in-while"]
                 renames = ["rename-suffix", "rename-fresh"]
                 if r["lang"] in ("ts", "js"):
                     kinds += ts_scopes + renames + ["%s+%s" % (a, b) for a in renames for b in ts_scopes]
@@ -280,7 +310,7 @@ def run(ctx):
                     else:
                         kinds = ["as-is", "repeat2", rng.choice(["in-function-class", "in-function-if", "in-function-try"]), "rename-" + rng.choice(["suffix", "fresh"]),
                                  "rename-%s+%s" % (rng.choice(["suffix", "fresh"]), rng.choice(["in-function", "in-function-if"]))] + \
-                            rng.sample(["after-filler", "before-filler", "in-function", "in-if", "repeat3", "in-class-class"], 2)
+                            rng.sample(["after-filler", "before-filler", "in-function", "in-if", "repeat3", "in-class-class"], 2) + [rng.choice(["in-for", "in-while"]), rng.choice(["body-in-for", "body-in-while", "body-in-if"])]
         for kind in kinds:
             e = embed(r, kind, rng)
             if e is None:
@@ -334,6 +364,9 @@ def run(ctx):
         if not b:
             continue  # base itself is a (reported) deviation; embeddings add nothing
         exp_lines = sorted(m[x[2]] for m in case["maps"] for x in b if x[2] < len(m))
+        if -1 in exp_lines:
+            ctx.count("embeddings_skipped_finding_outside_moved_part")
+            continue
         got_lines = sorted(x[2] for x in got)
         ctx.count("embeddings_checked")
         if len(got) != len(b) * case["mult"] or exp_lines != got_lines:
